@@ -31,8 +31,8 @@ class Check(PropertyCheck):
     QUICK_N = 250
 
     def make_impl(self, scenario):
-        from impl_ext import ImplWorld
-        impl = ImplWorld(scenario.meta.get("filter_style", "callable"))
+        from impl_ext import ImplEnv
+        impl = ImplEnv(filter_style=scenario.meta.get("filter_style", "callable"))
         impl.subclass_mode = bool(scenario.meta.get("subclass"))
         return impl
 
@@ -83,6 +83,11 @@ class Check(PropertyCheck):
             elif r < 0.34:
                 lines.append("reset")
                 tr.reset()
+            elif r < 0.36:
+                # a constructor that REFUSES its arguments (a feature type the observer does not support): it raises, and nobody
+                # has been subscribed
+                lines.append(rng.choice(["fobs remaining_operations o", "fobs position_in_job m", "fobs position_in_job mj",
+                                         "fobs remaining_operations oj", "fobs position_in_job j"]))
             elif r < 0.44:
                 bad = gen.gen_invalid_request(rng, tr, M)
                 if bad:
@@ -228,6 +233,9 @@ class Check(PropertyCheck):
             res.append(("inside-callback", f"after `{line}`: {msg}"))
         if getattr(impl, "inside_bad", None):
             impl.inside_bad.clear()
+        if line.startswith("fobs") and out != "raise":
+            res.append(("failed-constructor", f"`{line}` (a feature type this observer does not support) replied `{out}`: the constructor "
+                        "must raise and leave the subscriber list as it was"))
         if line.startswith("inst"):
             ctx.update(trace_len=0, expected_hist={}, sub_since={})
             return res
